@@ -513,10 +513,23 @@ func hoistTVar(unresT []string, lfd LetFuncDef) frt.Tuple2[[]string, LetFuncDef]
 	return frt.NewTuple2(newTs, nlfd)
 }
 
-func InferLfd(tvc TypeVarCtx, lfd LetFuncDef) RootFuncDef {
+func countUnresLfd(lfd LetFuncDef) int {
+	return frt.Pipe(frt.Pipe(collectTVarLfd(lfd), slice.Distinct), slice.Length)
+}
+
+func inferLfdPass(tvc TypeVarCtx, count int, lfd LetFuncDef) LetFuncDef {
 	rels := collectLfdRels(lfd)
 	updateResolver(tvc.resolver, rels)
 	nlfd := resolveLfd(tvc.resolver, lfd)
+	return frt.IfElse(((count < 10) && (countUnresLfd(nlfd) < countUnresLfd(lfd))), (func() LetFuncDef {
+		return inferLfdPass(tvc, (count + 1), nlfd)
+	}), (func() LetFuncDef {
+		return nlfd
+	}))
+}
+
+func InferLfd(tvc TypeVarCtx, lfd LetFuncDef) RootFuncDef {
+	nlfd := inferLfdPass(tvc, 0, lfd)
 	unresTvs := frt.Pipe(collectTVarLfd(nlfd), slice.Distinct)
 	newTvs, nlfd2 := frt.Destr2(hoistTVar(unresTvs, nlfd))
 	return RootFuncDef{Tparams: newTvs, Lfd: nlfd2}
